@@ -8,8 +8,39 @@ let rec int_of_pos = function XH -> 1 | XO p -> 2 * int_of_pos p | XI p -> 2 * i
 let int_of_n = function N0 -> 0 | Npos p -> int_of_pos p
 let rec nat_of_int i = if i = 0 then O else S (nat_of_int (i - 1))
 let rec int_of_nat = function O -> 0 | S n -> 1 + int_of_nat n
-let ni s = n_of_int (int_of_string s)
-let si n = string_of_int (int_of_n n)
+(* arbitrary-precision decimal <-> N (uint64 values exceed OCaml's 63-bit int) *)
+let n_of_dec (s : Stdlib.String.t) : n =
+  if Stdlib.String.length s <= 17 then n_of_int (int_of_string s) else begin
+    let d = Array.init (Stdlib.String.length s) (fun i -> Char.code s.[i] - 48) in
+    let is_zero () = Array.for_all (fun x -> x = 0) d in
+    let bits = ref [] in
+    while not (is_zero ()) do
+      let carry = ref 0 in
+      for i = 0 to Array.length d - 1 do
+        let cur = !carry * 10 + d.(i) in d.(i) <- cur / 2; carry := cur mod 2
+      done;
+      bits := !carry :: !bits            (* collected LSB first, so the list ends up MSB first *)
+    done;
+    match !bits with
+    | [] -> N0
+    | _ :: rest -> Npos (List.fold_left (fun p b -> if b = 1 then XI p else XO p) XH rest)
+  end
+let dec_of_n (x : n) : Stdlib.String.t =
+  let rec bits_of_pos p acc = match p with XH -> 1 :: acc | XO q -> bits_of_pos q (0 :: acc) | XI q -> bits_of_pos q (1 :: acc) in
+  match x with
+  | N0 -> "0"
+  | Npos p ->
+      let bits = bits_of_pos p [] in      (* MSB first *)
+      if List.length bits <= 60 then string_of_int (int_of_pos p) else begin
+        let d = ref [0] in                (* decimal digits, least significant first *)
+        List.iter (fun b ->
+          let carry = ref b in
+          d := List.map (fun x -> let v = 2 * x + !carry in carry := v / 10; v mod 10) !d;
+          if !carry > 0 then d := !d @ [!carry]) bits;
+        Stdlib.String.concat "" (List.rev_map string_of_int !d)
+      end
+let ni s = n_of_dec s
+let si n = dec_of_n n
 
 let bytes_of_hex s =
   if s = "-" then [] else
@@ -30,6 +61,59 @@ let show_out = function
   | OWrite b -> "W:" ^ hex_of_bytes b
   | ODeliver f -> "D:" ^ show_w f
   | OAckSet -> "A"
+
+(* ---- wire types and values: text syntax ----
+   type:  I<w> | F<n> | B<h>:<cap> | L<h>(<ty>) | X<n>(<ty>) | G(<ty>) | S(<ty>,...) | D
+   value: i<n> | b<hex or -> | l(<v>,...) *)
+let parse_ty (s : Stdlib.String.t) : wty =
+  let pos = ref 0 in
+  let peek () = if !pos < String.length s then s.[!pos] else '\000' in
+  let adv () = incr pos in
+  let num () = let st = !pos in while (let c = peek () in c >= '0' && c <= '9') do adv () done;
+    int_of_string (String.sub s st (!pos - st)) in
+  let rec ty () =
+    let c = peek () in adv ();
+    match c with
+    | 'I' -> TInt (nat_of_int (num ()))
+    | 'F' -> TFixBytes (nat_of_int (num ()))
+    | 'B' -> let h = num () in adv (); let cap = num () in TLVBytes (nat_of_int h, n_of_int cap)
+    | 'L' -> let h = num () in adv (); let t = ty () in adv (); TLVList (nat_of_int h, t)
+    | 'X' -> let n = num () in adv (); let t = ty () in adv (); TFixList (nat_of_int n, t)
+    | 'G' -> adv (); let t = ty () in adv (); TGreedy t
+    | 'S' -> adv ();
+        let rec items acc = if peek () = ')' then (adv (); List.rev acc) else begin
+          let t = ty () in (if peek () = ',' then adv ()); items (t :: acc) end in
+        TStruct (items [])
+    | 'D' -> TSimpleDesc
+    | _ -> failwith "bad type syntax" in
+  ty ()
+
+let parse_val (s : Stdlib.String.t) : value =
+  let pos = ref 0 in
+  let peek () = if !pos < String.length s then s.[!pos] else '\000' in
+  let adv () = incr pos in
+  let rec v () =
+    let c = peek () in adv ();
+    match c with
+    | 'i' -> let st = !pos in while (let c = peek () in c >= '0' && c <= '9') do adv () done;
+        VInt (n_of_dec (String.sub s st (!pos - st)))
+    | 'b' -> let st = !pos in while (let c = peek () in (c >= '0' && c <= '9') || (c >= 'a' && c <= 'f') || c = '-') do adv () done;
+        VBytes (bytes_of_hex (String.sub s st (!pos - st)))
+    | 'l' -> adv ();
+        let rec items acc = if peek () = ')' then (adv (); List.rev acc) else begin
+          let x = v () in (if peek () = ',' then adv ()); items (x :: acc) end in
+        VList (items [])
+    | _ -> failwith "bad value syntax" in
+  v ()
+
+let rec show_val = function
+  | VInt n -> "i" ^ si n
+  | VBytes b -> "b" ^ hex_of_bytes b
+  | VList l -> "l(" ^ String.concat "," (List.map show_val l) ^ ")"
+
+let show_assign a = String.concat " " (List.map (function None -> "n" | Some v -> show_val v) a)
+let parse_assign toks = List.map (fun t -> if t = "n" then None else Some (parse_val t)) toks
+let nth_cmd i = List.nth schemas i
 
 let handle toks =
   match toks with
@@ -70,6 +154,16 @@ let handle toks =
         | _ -> failwith ("bad event " ^ t) in
       let (s, ws) = trun (ni s0) (List.map ev_of evs) in
       String.concat ";" (List.map hex_of_bytes ws) ^ " // seq=" ^ si s
+  | ["wenc"; ty; v] -> let t = parse_ty ty and x = parse_val v in
+      if valid t x then hex_of_bytes (enc t x) else "INVALID"
+  | ["wdec"; ty; d] -> (match dec (parse_ty ty) (bytes_of_hex d) with
+      | None -> "NONE" | Some (v, r) -> show_val v ^ " " ^ hex_of_bytes r)
+  | "cmdenc" :: idx :: a -> let c = nth_cmd (int_of_string idx) in let a = parse_assign a in
+      if construct_ok c.c_params a then hex_of_bytes (enc_params c.c_params a) else "REFUSED"
+  | ["cmddec"; idx; d] -> let c = nth_cmd (int_of_string idx) in
+      (match from_body c (bytes_of_hex d) with
+       | Accept a -> "A " ^ show_assign a | Partial a -> "P " ^ show_assign a | Reject -> "R")
+  | ["schemaok"; idx] -> let c = nth_cmd (int_of_string idx) in if schema_ok c.c_params then "1" else "0"
   | ["specparse"; b] ->
       String.concat ";" (List.map (fun (o, w) -> string_of_int (int_of_nat o) ^ ":" ^ show_w w) (spec_parse_pos (bytes_of_hex b)))
   | ["specack"; q] -> hex_of_bytes (spec_ack_bytes (ni q))
